@@ -34,7 +34,7 @@ EPOCH = datetime(2040, 1, 1)
 def gen_cases(tier, seed):
     rnd = random.Random(seed)
     cases = []
-    nsc = {"quick": {"mem": 5, "redis": 4, "rabbit": 3}, "thorough": {"mem": 24, "redis": 18, "rabbit": 12}}[tier]
+    nsc = {"quick": {"mem": 5, "redis": 4, "rabbit": 3}, "thorough": {"mem": 16, "redis": 12, "rabbit": 8}}[tier]
     for kind, n in nsc.items():
         for i in range(n):
             jobs = []
@@ -129,8 +129,14 @@ async def scenario(loop, case, inject_step, info):
             server_tasks = set(w.rig.net.server_tasks) if w.rig.net is not None else set()
             return [t for t in asyncio.all_tasks(loop) if t is not controller and t not in server_tasks and not t.done()]
 
+        t_begin = loop.time()
+
         def hook(step):
             if inject_step is None or step != inject_step or injected:
+                return
+            if loop.time() >= t_begin + 16.0 - 1e-6:
+                # the run has been idle up to the undisturbed horizon: this step is the controller's own timeout, not
+                # a point in the worker's life (an injection here would be judged against a horizon that has just expired)
                 return
             sigs = sorted("/".join(strip_lines(await_chain(t))[-4:]) for t in process_tasks() if t is not run_task)
             injected["t"] = loop.time()
